@@ -5,9 +5,10 @@ import Driver.Util
 
 /-! line protocol of the dshbak engine
 
-`pdshmodel dshbak model`: one case per line `MODE REPAIRED HEXINPUT`
+`pdshmodel dshbak model`: one case per line `MODE REPAIRED LIMIT HEXINPUT`
   MODE n (report / -d: one block per tag) or c (-c: coalesced), REPAIRED = bit 0: D21 patch applied,
-  bit 1: F19-EMPTYSTEM patch applied (both probed on the real script by the check),
+  bit 1: F19-EMPTYSTEM patch applied, LIMIT = 0 or the range limit of the F19-LONGRUN patch (all probed
+  on the real script by the check),
   HEXINPUT the bytes of stdin.  Answer: blocks separated by `;` (`.` when there is none)
   n:  HEX(tag)=HEX(line),HEX(line)...
   c:  HEX(suffix group text),...=HEX(tag),...=HEX(line),...=HEX(denoted host),...
@@ -31,17 +32,18 @@ def semis (l : List String) : String := if l.isEmpty then "." else ";".intercala
 
 def runModel (line : String) : String :=
   match Driver.words line with
-  | [mode, rep, hxin] =>
+  | [mode, rep, slim, hxin] =>
     match unhx hxin with
     | none => "bad-op"
     | some input =>
       let flags := rep.toNat?.getD 0
+      let lim : Option Nat := match slim.toNat? with | some 0 => none | some m => some m | none => none
       let m := processLines (flags % 2 = 1) (readLines input)
       if mode = "n" then
         semis ((normalBlocks (keys m) m).map fun b => hx b.1 ++ "=" ++ hxs b.2)
       else if mode = "c" then
         semis ((coalesce (keys m) m).map fun b =>
-          let gs := if flags / 2 % 2 = 1 then compressGroupsFixed b.1 else compressGroups b.1
+          let gs := compressV lim (flags / 2 % 2 = 1) b.1
           hxs (gs.map fun g => renderHeader [g]) ++ "=" ++ hxs b.1 ++ "=" ++ hxs b.2 ++ "=" ++ hxs (hostsOf gs))
       else "bad-op"
   | _ => "bad-op"
